@@ -46,8 +46,17 @@ func (c04Engine) Generate(seed uint64, prop, tier string) (json.RawMessage, erro
 	g := core.NewSource(seed).Stream("gen")
 	sc := c04Scenario{Engine: "e3/c04"}
 	nb := g.Range(1, 12)
+	backlog := g.Chance(1, 60)
+	if backlog {
+		// a long backlog: more batches than the stream's read cache holds, and other readers (another
+		// session's connection, a status page) have looked all of them up before this client reads them
+		nb = g.Range(1002, 1040)
+	}
 	for i := 0; i < nb; i++ {
 		n := g.Range(1, 5)
+		if backlog {
+			n = g.Pick2(1, 1, 2)
+		}
 		mine := make([]bool, n)
 		for k := range mine {
 			mine[k] = !g.Chance(1, 4)
@@ -56,6 +65,9 @@ func (c04Engine) Generate(seed uint64, prop, tier string) (json.RawMessage, erro
 	}
 	// the replica starts with a prefix
 	sc.Steps = append(sc.Steps, c04Step{K: "apply", N: g.Intn(nb + 1)})
+	if backlog {
+		sc.Steps = append(sc.Steps, c04Step{K: "apply", N: nb}, c04Step{K: "warm", N: g.Range(1001, nb)})
+	}
 	conns := g.Range(1, 6)
 	for c := 0; c < conns; c++ {
 		sc.Steps = append(sc.Steps, c04Step{K: "connect", Store: g.Pick2(0, 1, 1)})
@@ -372,6 +384,19 @@ func c04Execute(sc *c04Scenario, res *core.Result) error {
 				// Add woke the reader if it was waiting; nothing runs until it is scheduled
 			}
 			r.tr.Log("apply -> %d", r.applied)
+		case "warm":
+			// other readers walk the stream on both nodes (no connection of ours exists yet)
+			if r.sched == nil {
+				for k := range r.stores {
+					for i := 0; i < st.N && i < len(r.history); i++ {
+						if k == 1 && i >= r.applied {
+							break
+						}
+						r.stores[k].Get(r.history[i][0].Id)
+						res.Add("lookups_by_other_readers", 1)
+					}
+				}
+			}
 		case "connect":
 			r.connect(st.Store)
 		case "run":
@@ -423,7 +448,7 @@ func c04Execute(sc *c04Scenario, res *core.Result) error {
 		r.step = len(sc.Steps)
 		r.applyReplica(len(r.history))
 		r.connect(1)
-		for guard := 0; guard < 4000 && len(res.Violations) == 0 && r.reader != nil && len(r.received) < len(r.expected); guard++ {
+		for guard := 0; guard < 4000+20*len(r.expected) && len(res.Violations) == 0 && r.reader != nil && len(r.received) < len(r.expected); guard++ {
 			switch {
 			case r.reader.Ready():
 				r.sched.Step(r.reader)
